@@ -378,9 +378,201 @@ func (e *Engine) implementerIDs(iface *types.Interface) []int {
 	return ids
 }
 
-func (e *Engine) ifaceContract(cc *ssa.CallCommon) *Contract { return nil }
+func (e *Engine) ifaceContract(cc *ssa.CallCommon) *Contract {
+	t := cc.Value.Type()
+	n, ok := t.(*types.Named)
+	if !ok || n.Obj().Pkg() == nil {
+		return nil
+	}
+	return e.ifaceCts[n.Obj().Pkg().Name()+"."+n.Obj().Name()+"."+cc.Method.Name()]
+}
+
+// applyIfaceContract: invoke through an interface with a written contract. "this" names the receiver.
 func (c *fnCtx) applyIfaceContract(in ssa.Instruction, ct *Contract, cc *ssa.CallCommon, recv *Val, args []*Val, rt types.Type) *Val {
-	return c.result(rt, "ic")
+	sig := cc.Method.Type().(*types.Signature)
+	mk := func(results []*Val, st, old *State) *evalEnv {
+		lk := func(name string) (tv, bool) {
+			if name == "this" {
+				return tv{v: recv, t: cc.Value.Type()}, true
+			}
+			for i, n := range ct.ParamNames {
+				if n == name && i < len(args) && i < sig.Params().Len() {
+					return tv{v: args[i], t: sig.Params().At(i).Type()}, true
+				}
+			}
+			rn := resultNames(sig)
+			for i, n := range rn {
+				if n == name && i < len(results) && results[i] != nil {
+					return tv{v: results[i], t: sig.Results().At(i).Type()}, true
+				}
+			}
+			return tv{}, false
+		}
+		return &evalEnv{c: c, lookup: lk, st: st, old: old, bound: map[string]tv{}, pkg: ct.Pkg}
+	}
+	pre := c.st.clone()
+	env := mk(nil, c.st, c.st)
+	for i, rq := range ct.Requires {
+		f, err := c.safeEval(env, rq)
+		if err != nil {
+			c.eng.engineError(err)
+			continue
+		}
+		c.addObl("pre", in.Pos(), f, fmt.Sprintf("%s requires[%d] %s", ct.Key, i, rq.Src))
+	}
+	c.passedPtrEffects(cc, args)
+	if ct.Modifies != nil {
+		c.havocSet(c.eng.contractMods(nil, ct))
+	} else {
+		c.havocSet(c.eng.invokeMods(cc))
+	}
+	r := c.result(rt, "ic")
+	post := mk(unpackResults(r, rt), c.st, pre)
+	for _, en := range ct.Ensures {
+		f, err := c.safeEval(post, en)
+		if err != nil {
+			c.eng.engineError(err)
+			continue
+		}
+		c.em.assert("(=> " + c.reach[c.curB] + " " + f + ")")
+	}
+	c.eng.noteContractUse(ct.Key)
+	return r
+}
+
+// subtypeObligations: every in-module implementer of a contracted interface method stays inside the frame of
+// the interface contract (syntactic write-set inclusion). A method whose body only calls its own receiver
+// (a named func type) is represented by the functions converted to that type.
+func (e *Engine) subtypeObligations(prop string) []*Obl {
+	var res []*Obl
+	var keys []string
+	for k := range e.ifaceCts {
+		keys = append(keys, k)
+	}
+	sort.Strings(keys)
+	for _, k := range keys {
+		ct := e.ifaceCts[k]
+		has := false
+		for _, p := range ct.Props {
+			if p == prop {
+				has = true
+			}
+		}
+		if !has || ct.Modifies == nil {
+			continue
+		}
+		parts := strings.Split(k, ".")
+		if len(parts) != 3 {
+			continue
+		}
+		var iface *types.Interface
+		var m *types.Func
+		for _, p := range e.pkgs {
+			if p.Types.Name() != parts[0] {
+				continue
+			}
+			if o := p.Types.Scope().Lookup(parts[1]); o != nil {
+				if it, ok := o.Type().Underlying().(*types.Interface); ok {
+					iface = it
+					for i := 0; i < it.NumMethods(); i++ {
+						if it.Method(i).Name() == parts[2] {
+							m = it.Method(i)
+						}
+					}
+				}
+			}
+		}
+		if iface == nil || m == nil {
+			e.engineError(fmt.Errorf("ifacecontract %s: interface method not found", k))
+			continue
+		}
+		allowed := e.contractMods(nil, ct)
+		for _, f := range e.implementers(iface, m) {
+			ms := e.fnMods(f)
+			if ms.Top {
+				if alt := e.funcTypeMods(f); alt != nil {
+					ms = alt
+				}
+			}
+			var bad []string
+			if ms.Top {
+				bad = append(bad, "unknown (dynamic call)")
+			}
+			for key := range ms.Keys {
+				if !allowed.Keys[key] && !strings.HasPrefix(key, "cell:") {
+					bad = append(bad, key)
+				}
+			}
+			sort.Strings(bad)
+			o := &Obl{Class: "subtype", Fn: e.fnKey(f), Pos: e.prog.Fset.Position(f.Pos()), Text: "writes only what " + k + " may modify", Guard: "true", Cond: "true"}
+			o.Name = e.fnKey(f) + "#subtype:" + k
+			if len(bad) == 0 {
+				o.Result, o.By = "proved", "frame-analysis"
+			} else {
+				o.Result = "refuted"
+				o.Raw = "writes outside the interface contract's frame: " + strings.Join(bad, ", ")
+				o.final = true
+			}
+			res = append(res, o)
+		}
+	}
+	return res
+}
+
+// funcTypeMods: for a method on a named func type whose body calls the receiver, the union of the write sets
+// of every function value converted to that type anywhere in the module (nil when that is not the shape).
+func (e *Engine) funcTypeMods(f *ssa.Function) *ModSet {
+	recv := f.Signature.Recv()
+	if recv == nil {
+		return nil
+	}
+	rt := recv.Type()
+	if _, ok := rt.Underlying().(*types.Signature); !ok {
+		return nil
+	}
+	m := newModSet()
+	found := false
+	for _, g := range e.allFns {
+		for _, b := range g.Blocks {
+			for _, in := range b.Instrs {
+				var x ssa.Value
+				var to types.Type
+				switch c := in.(type) {
+				case *ssa.ChangeType:
+					x, to = c.X, c.Type()
+				case *ssa.MakeInterface:
+					x, to = c.X, c.X.Type()
+				default:
+					continue
+				}
+				if !types.Identical(to, rt) {
+					continue
+				}
+				switch fv := x.(type) {
+				case *ssa.MakeClosure:
+					m.add(e.fnMods(fv.Fn.(*ssa.Function)))
+					found = true
+				case *ssa.Function:
+					m.add(e.fnMods(fv))
+					found = true
+				case *ssa.ChangeType:
+					if mc, ok := fv.X.(*ssa.MakeClosure); ok {
+						m.add(e.fnMods(mc.Fn.(*ssa.Function)))
+						found = true
+					}
+				default:
+					if types.Identical(x.Type(), rt) {
+						continue
+					}
+					m.Top = true
+				}
+			}
+		}
+	}
+	if !found {
+		return nil
+	}
+	return m
 }
 
 // ---- source text of an instruction for obligation names -----------------------------------------
@@ -437,4 +629,14 @@ func shortText(s string) string {
 	}
 	h := sha256.Sum256([]byte(s))
 	return fmt.Sprintf("%s~%x", s[:44], h[:4])
+}
+
+// elemTypeID identifies the element type of an array for the "arrays are typed" axiom (byte == uint8, named
+// types by their underlying type).
+func (e *Engine) elemTypeID(t types.Type) int {
+	u := types.Unalias(t).Underlying()
+	if b, ok := u.(*types.Basic); ok {
+		return 100000 + int(b.Kind())
+	}
+	return e.typeID(u)
 }
